@@ -232,7 +232,11 @@ def hEpoch : Handler := fun j => do
     let c01why : String := (c01r.map (·.1)).getD ""
     let c01sig : String := (c01r.map (·.2)).getD ""
     let c09why : String := if !inputOk then "" else (let q := PopSpec.quotasWhy ap n; if q != "" then q else (let q2 := PopSpec.parentsWhy o p ap; if q2 != "" then q2 else PopSpec.expectedWhy ap))
-    let c10why : String := if !inputOk then "" else (let q := PopSpec.championWhy bitEq ap a; if q != "" then q else PopSpec.fittestWhy bitEq p ap a)
+    -- C10 does not ask for consecutive trait ids (a clause of WF that only the crossovers need): its predicate is also
+    -- evaluated on populations whose genomes list their traits in another order (lineages evolved by mutation only)
+    let inputOk10 := inputOk || (heapIn && PopSpec.popInvB p n && PopSpec.fitnessOk p &&
+      p.species.all (fun s => s.orgs.all (fun x => wfWhy x.genome == "traits-not-consecutive" || wfWhy x.genome == "")))
+    let c10why : String := if !inputOk10 then "" else (let q := PopSpec.championWhy bitEq ap a; if q != "" then q else PopSpec.fittestWhy bitEq p ap a)
     let c03why : String := if !inputOk then "" else PopSpec.innovWhy p a
     -- C08 over the epoch (Spec/Placed.lean; the model passes it: C08.placedWhy_model): every organism of the new generation is
     -- the founder of a species founded in this turnover or joined under the nearest compatible representative of `ap`
